@@ -50,12 +50,15 @@ func normSibling(s string) string {
 // stmtDescriptors: the multiset of descriptors of fn.
 func stmtDescriptors(fn *ssa.Function) []string {
 	var out []string
+	ctx := ""
 	add := func(s string) {
 		if s != "" {
-			out = append(out, normSibling(s))
+			out = append(out, normSibling(s+ctx))
 		}
 	}
+	ctxOf := blockContexts(fn)
 	for _, b := range fn.Blocks {
+		ctx = ctxOf[b.Index]
 		for _, in := range b.Instrs {
 			switch x := in.(type) {
 			case *ssa.Call:
@@ -315,4 +318,53 @@ func limbCount(p *Program, pk string) int {
 	}
 	limbMemo[pk] = n
 	return n
+}
+
+// blockContexts: for every block the branch facts it is control-dominated by (the statements
+// that hold on the If edges whose target dominates the block), rendered as a sorted suffix
+// " @{fact;fact}". Effects and calls are compared together with the guards they sit under, so
+// moving a store above the test that used to protect it changes its descriptor even though the
+// multiset of plain statements is unchanged.
+func blockContexts(fn *ssa.Function) []string {
+	out := make([]string, len(fn.Blocks))
+	type ef struct {
+		target *ssa.BasicBlock
+		fact   string
+	}
+	var edges []ef
+	for _, b := range fn.Blocks {
+		if len(b.Instrs) == 0 {
+			continue
+		}
+		iff, ok := b.Instrs[len(b.Instrs)-1].(*ssa.If)
+		if !ok {
+			continue
+		}
+		a := atomOf(iff.Cond)
+		for k := 0; k < 2; k++ {
+			t := b.Succs[k]
+			if len(t.Preds) != 1 {
+				continue // a join: not control-dominated by this edge alone
+			}
+			if d := descAtom(a, k); d != "" && !loopNoise(d) {
+				edges = append(edges, ef{t, d})
+			}
+		}
+	}
+	for _, b := range fn.Blocks {
+		var fs []string
+		for _, e := range edges {
+			if e.target == b || e.target.Dominates(b) {
+				fs = append(fs, e.fact)
+			}
+		}
+		if len(fs) > 0 {
+			sort.Strings(fs)
+			if len(fs) > 4 {
+				fs = fs[:4]
+			}
+			out[b.Index] = " @{" + strings.Join(fs, ";") + "}"
+		}
+	}
+	return out
 }
